@@ -262,6 +262,36 @@ def run_case(case):
             viol.append({"sig": f"C13/min-search-answered-by-faulted-invocation/{kind}/{inj['mode']}", "msg": f"answer {r.get('obj')}; {what}; {label}"})
         if len(viol) > 6:
             break
+    # ---- re-solve history on ONE model object: a proven-optimal solve() followed by a solve() whose solver run is inconclusive
+    if case["kind"] in ("model", "minerrorflow", "minsetcover") and not is_min:
+        for mode, st in (("override", "kTimeLimit"), ("skip", "kInterrupt"), ("custom", "kTimeLimit")):
+            M.TRACE.reset(); M.TRACE.inject = None
+            b2 = M.safe_call(build)
+            if b2[0] != "ok" or b2[1] is None:
+                break
+            m = b2[1]
+            s1 = M.safe_call(m.solve)
+            if s1[0] != "ok" or not M.safe_call(m.is_solved)[1:] == (True,):
+                break
+            M.safe_call(objective, m)
+            M.TRACE.inject = {"at": len(M.TRACE.trace), "mode": mode, "status": st}
+            try:
+                s2 = M.safe_call(m.solve)
+            finally:
+                M.TRACE.inject = None
+            obs["c13.resolve_histories"] += 1
+            if not any(t.get("fault") for t in M.TRACE.trace):
+                continue
+            sv = M.safe_call(m.is_solved)
+            what = f"solve() optimal, then solve() again with the solver run ending {st} ({mode})"
+            if s2[0] == "ok" and s2[1] not in (False, None):
+                viol.append({"sig": f"C13/resolve/solve-returns-true-after-inconclusive-run/{kind}", "msg": f"{what}; {label}"})
+            if sv[0] == "ok" and sv[1]:
+                viol.append({"sig": f"C13/resolve/still-reports-solved-after-inconclusive-run/{kind}", "msg": f"{what}: is_solved() stays True; {label}"})
+            else:
+                leaks = getters_raise(m)
+                if leaks:
+                    viol.append({"sig": f"C13/resolve/unsolved-model-hands-out-cached-data/{kind}/" + "+".join(sorted(x for x, _ in leaks)), "msg": f"{what}: is_solved() is False but {leaks}; {label}"})
     seen = set(); out = []
     for v in viol:
         if v["sig"] not in seen:
